@@ -35,6 +35,13 @@ def main(path):
         print('no failing input recorded (no-failing-input-found): nothing to replay natively')
         return 0
     for f in fi:
+        if f.get('guard'):
+            code, out = W.replay_guard(f['family'], f.get('cfg', 0), f['input_hex'], (f.get('backends') or ['default'])[0])
+            print('--- guard-page replay family=%s cfg=%s back-end build=%s input=%s' % (f['family'], f.get('cfg'), (f.get('backends') or ['default'])[0], f.get('input')))
+            print(out.strip()[:1500])
+            print('=> %s' % ('STILL reads past the end of the buffer' if code == 1 else 'no over-read on this tree' if code == 0 else 'replay error'))
+            rc = max(rc, 1 if code == 1 else 0)
+            continue
         code, out = W.replay(f['family'], f.get('cfg', 0), f.get('cap', 0), f['input_hex'], (f.get('backends') or ['default'])[0],
                              (f.get('history_hex'), f.get('history_cfg', 0), f.get('history_uninit', 0)) if 'history_hex' in f else None)
         print('--- replay family=%s cfg=%s cap=%s back-end build=%s input=%s' % (f['family'], f.get('cfg'), f.get('cap'), (f.get('backends') or ['default'])[0], f.get('input')))
